@@ -79,6 +79,8 @@ def lookup_task(task):
     keys = 0
     bad_valid, vals = [], {}
     labels_bad = []
+    accepted = 0
+    seen_keys = set()
     for k in sizes:
         for ranks in itertools.combinations_with_replacement(order, k):
             if max(Counter(ranks).values()) > 4:
@@ -104,6 +106,8 @@ def lookup_task(task):
                     bad_valid.append((ranks, suited, v, has))
                     continue
                 if has:
+                    accepted += 1
+                    seen_keys.add(lk._get_key(cs))
                     e = lk.get_entry(cs)
                     grp = k if opening else 0       # opening hands are only compared between equal card counts
                     vals.setdefault(grp, []).append((v, e.index, e.label.value, ranks, suited))
@@ -135,6 +139,23 @@ def lookup_task(task):
     indices = sorted({e.index for e in entries.values()})
     dense = indices == list(range(len(indices)))
     out.append(res(f'C04/{name}/indices-dense/E', dense, f'{len(indices)} distinct indices', meta=meta))
+    # the real table holds no key beyond those enumerated above (sizes of the type, multiplicities <= 4): every key is a product of rank
+    # primes, so its number of prime factors is the number of cards it stands for
+    primes = (2, 3, 5, 7, 11, 13, 17, 19, 23, 29, 31, 37, 41)
+
+    def card_count(h):
+        k = 0
+        for pr in primes:
+            while h % pr == 0:
+                h //= pr
+                k += 1
+        return k if h == 1 else -1
+    odd = [key for key in entries if card_count(key[0]) not in sizes]
+    # (a one-card key marked "not suited" can never be asked for -- a single card is always suited -- and is ignored)
+    extra = [key for key in entries if key not in seen_keys and not (card_count(key[0]) == 1 and not key[1])]
+    out.append(res(f'C04/{name}/no-entry-of-another-size-and-none-beyond-the-rules/E', not odd and not extra,
+                   f'{len(entries)} keys in the table, {accepted} combinations the rules accept; keys of a wrong card count: {odd[:4]}; '
+                   f'keys no accepted combination maps to: {extra[:4]}', meta=meta))
     if name in ('StandardLookup', 'ShortDeckHoldemLookup'):
         out.append(res(f'C04/{name}/labels-name-the-category/E', not labels_bad, f'{labels_bad[:3]}', meta=meta))
     for r in out:
